@@ -56,7 +56,7 @@ func main() {
 		bad := false
 		for i, op := range ops {
 			impl := safeExec(p, op)
-			v := p.Judge(op, impl, model[i])
+			v := judgeOp(p, op, impl, model[i])
 			fmt.Printf("case:   %s\nimpl:   %s\nmodel:  %s\ncorrespondence: %v\noracle: %s\n", p.Describe(op), impl, model[i], v.CorrOK, orOK(v.OracleFail))
 			if v.OracleFail != "" {
 				bad = true
